@@ -4,7 +4,13 @@
 #   2. gen_coq.awk        -> Coq files, SHARD vectors each
 #   3. coqc (in parallel) -> every vector evaluated with vm_compute; a shard
 #                            compiles only if all of its vectors agree.
-# usage: check.sh [-keep] [-small]       env: SHARD (default 6000), JOBS
+# usage: check.sh [-keep] [-small]
+#   -small : the ~300-vector regression corpus (the one in coq/lib/F64Test.v)
+#   -keep  : keep the work directory
+#   env    : SHARD  vectors per Coq file (default 3000, ~25 s of coqc each)
+#            JOBS   parallel coqc processes (default: nproc)
+#            EVERY  use only every EVERY-th vector (default 1 = all ~105,000;
+#                   the full run is ~15 CPU-minutes)
 set -eu
 here=$(cd "$(dirname "$0")" && pwd)
 coq=$(cd "$here/../../coq" && pwd)
@@ -16,13 +22,14 @@ for a in "$@"; do
     *) echo "usage: $0 [-keep] [-small]" >&2; exit 2 ;;
   esac
 done
-SHARD=${SHARD:-6000}
+SHARD=${SHARD:-3000}
+EVERY=${EVERY:-1}
 JOBS=${JOBS:-$(nproc 2>/dev/null || echo 2)}
 export GOFLAGS=-mod=mod GOPROXY=off GOSUMDB=off GOTOOLCHAIN=local
 work=$(mktemp -d "${TMPDIR:-/var/tmp}/f64vec.XXXXXX")
 [ "$keep" = 1 ] || trap 'rm -rf "$work"' EXIT
 
-(cd "$here" && go run . $small) > "$work/vec.txt"
+(cd "$here" && go run . $small) | awk -v k="$EVERY" 'NR % k == 0' > "$work/vec.txt"
 total=$(wc -l < "$work/vec.txt")
 echo "vectors: $total  (per function: $(cut -f1 "$work/vec.txt" | sort | uniq -c | awk '{printf "%s=%s ", $2, $1}'))"
 
